@@ -1,33 +1,37 @@
-(** C19 — statements believed true of the repaired code (commits be61253, 7b4a6e2) that are
-    stated here but NOT proved (no proof obligations are left open in the development: these
-    are Definitions of propositions, not lemmas). *)
+(** C19 — statements that are NOT proved (no proof obligations are left open in the development: these
+    are Definitions of propositions, not lemmas), and the literal forms of two statements formerly listed
+    here, which are now proved in corrected form:
+
+    - "once per double-signing": proved as [C19_once_per_double_sign] (ProofsOnceSign.v), over the
+      evidence records a history commits, under the explicit hypothesis that keys identify evidence.
+      The literal form below was vacuous ([hash_functional] is false as stated, ProofsNewExamples.v).
+    - "block validity agreed": proved as [C19_block_validity_agreed] (ProofsAgree.v) with the magnitudes
+      bounded and keys identifying evidence; the literal form below is REFUTED
+      ([C19_block_validity_agreed_literal_refuted]: negative MaxAgeNumBlocks). *)
 From Coq Require Import List ZArith NArith Bool.
 From Kardia Require Import Base.Int64 C19.Model C19.ProofsBasic C19.ProofsVerify C19.ProofsPool
      C19.ProofsHistory C19.ProofsOnce.
 Import ListNotations.
 Local Open Scope Z_scope.
 
-(** Since VerifyDuplicateVote pins both validator indices, two committed pieces of evidence
-    made of the same two signed votes should have the same key, provided the hash is a
-    function of the evidence content ([hash_functional]).  [C19_once] proves "once" per key;
-    the example [replay_with_other_index_rejected] covers the index replay. *)
 Definition hash_functional : Prop :=
   forall e1 e2, e_a e1 = e_a e2 -> e_b e1 = e_b e2 -> e_total e1 = e_total e2 ->
                 e_power e1 = e_power e2 -> e_time e1 = e_time e2 -> e_hash e1 = e_hash e2.
 
-Definition once_per_double_sign : Prop :=
-  hash_functional ->
-  forall cid n ops e1 e2,
-    Inv cid n -> ops_ok cid n ops -> no_raw_update ops ->
-    In (ekey e1) (commit_log n ops) -> In (ekey e2) (commit_log n ops) ->
-    v_sig (e_a e1) = v_sig (e_a e2) -> v_sig (e_b e1) = v_sig (e_b e2) -> ekey e1 = ekey e2.
-
-(** Since the fast path of CheckEvidence applies the expiry rule, two pools over the same
-    chain with the same state and committed family, whose pending entries are all sound,
-    should give the same verdict on every list whose evidence heights do not exceed the state
-    height (isExpired subtracts in uint64, verify in int64: they differ above it). *)
-Definition block_validity_agreed : Prop :=
+Definition block_validity_agreed_literal : Prop :=
   forall cid c p q es,
     pool_inv cid c p -> pool_inv cid c q -> p_state p = p_state q -> p_committed p = p_committed q ->
     (forall e, In e es -> e_height e <= st_height (p_state p)) ->
     (snd (check_evidence p c es) = ROk <-> snd (check_evidence q c es) = ROk).
+
+(** OPEN (believed true, not proved): the pending family stays sorted by (height, hash) -- the iteration
+    order of the database, on which "oldest evidence first" in PendingEvidence and the early stop of the
+    pruning loop rely.  [put_pending] inserts in order and [del_pending] filters, so every operation should
+    preserve it; the correspondence run compares the family (in database order) after every operation.
+    (The two statements listed here before -- the counter evidenceSize is the size of the family, a
+    successful restart reloads the gossip list -- are now proved: [C19_size_counter_exact].) *)
+From Coq Require Import Sorting.Sorted.
+Definition sorted_pending (l : list evidence) : Prop :=
+  StronglySorted (fun a b => key2_ltb (ekey a) (ekey b) = true) l.
+Definition pending_stays_sorted : Prop :=
+  forall ops n, sorted_pending (p_pending (n_pool n)) -> sorted_pending (p_pending (n_pool (fst (run n ops)))).
